@@ -78,6 +78,8 @@ type Unit struct {
 	nbind     int
 	defDeps   map[string]termDeps
 	opts      UnitOpts
+	epochSnaps map[int]epochSnap
+	localRefs  []T // references of non-escaping local variables of the frames being executed
 	strDeclared, rootDeclared bool
 	modelVars []string          // scalar inputs (parameter leaves, skolems) worth querying in a model
 	ModelNames map[string]string // SMT term -> human name
@@ -260,6 +262,14 @@ type epochParent struct {
 	epoch int
 }
 
+// epochSnap remembers the heap before a "modifies everything" havoc so that
+// non-escaping local variables of the running frames keep their contents.
+type epochSnap struct {
+	heap     map[string]T
+	prev     int
+	preserve []T
+}
+
 // epochInit returns the constant that stands for the contents of key at the
 // beginning of epoch ep (epoch 0 = function entry; a new epoch starts after a
 // call that may modify everything).
@@ -281,6 +291,15 @@ func (u *Unit) epochInit(key string, sort Sort, ep int) T {
 		u.emitDecl(fmt.Sprintf("(declare-const %s %s)", q, sort))
 		for _, p := range u.epochParents[ep] {
 			u.emitFact(implies(p.cond, eq(T{q, sort}, u.epochInit(key, sort, p.epoch))))
+		}
+		if sn, ok := u.epochSnaps[ep]; ok && len(sn.preserve) > 0 && !strings.HasPrefix(key, "IT:") {
+			old, has := sn.heap[key]
+			if !has {
+				old = u.epochInit(key, sort, sn.prev)
+			}
+			for _, r := range sn.preserve {
+				u.emitFact(eq(sel(T{q, sort}, r), sel(old, r)))
+			}
 		}
 	}
 	return T{q, sort}
@@ -424,6 +443,10 @@ func (u *Unit) keyVal(t types.Type, k T) *V {
 
 func (u *Unit) oblige(st *State, kind, anchor string, goal T, human string) *Oblig {
 	if u.dry > 0 {
+		return nil
+	}
+	if u.opts.AssertsOnly && kind != "assert" && kind != "assert-noassume" {
+		u.assume(st, goal)
 		return nil
 	}
 	noAssume := false
